@@ -675,9 +675,15 @@ fn refs(i: &Instruction) -> Vec<&String> {
 }
 
 pub fn recognise(text: &str) -> Verdict {
-    if text.contains('\r') {
-        return Verdict::Unspecified("carriage return in the text".into());
-    }
+    // the grammar's line terminator is NEWLINE = "\n" | "\r\n" | "\r" (a terminator can occur
+    // nowhere else: comments end before it)
+    let normalised;
+    let text = if text.contains('\r') {
+        normalised = text.replace("\r\n", "\n").replace('\r', "\n");
+        normalised.as_str()
+    } else {
+        text
+    };
     let rest = match text.strip_prefix("#! mrasm") {
         Some(r) => r,
         None => return Verdict::Reject("first line is not '#! mrasm'".into()),
